@@ -116,7 +116,7 @@ def build(tier):
         Target('bundle_moveto', [mv(), a4()], H, replace=['bundle_append4']),
         Target('bundle_ctor', [ctor, a4()], H, replace=['bundle_append4']),
         Target('bundle_econverged', [econv, size(), cap()], H, replace=acc), Target('bundle_sconverged', [sconv, size(), cap()], H, replace=acc),
-    ] + protocol.targets(['NV_C03'])
+    ] + protocol.targets(['NV_C03']) + [protocol.ellipsoid()]
     return {
         'targets': targets, 'vcs': [],
         'decided': ['bundle_t representation invariant 0 < m_size < capacity() after append / moveto (and from m_size >= 0, as the constructor uses append); every index written into m_bundleE / m_bundleS / m_alphas lies in [0, capacity()); delete_largest reads m_alphas inside [0, size()) and a full bundle loses at least `count` entries'],
